@@ -7,6 +7,7 @@
 #include <cstdint>
 #include <cstdio>
 #include <functional>
+#include <algorithm>
 #include <map>
 #include <memory>
 #include <set>
@@ -387,8 +388,69 @@ static int ref_cmp(const D& x, const D& y)
     return 0;
 }
 
+// wide and UTF-16 / UTF-32 strings: every code unit enters the hash, alone and as a component
+template <typename S>
+static void wide_string_case(const std::string& name)
+{
+    using nitro::lang::hash;
+    using Ch = typename S::value_type;
+    std::vector<S> g;
+    for (std::size_t len : { std::size_t(1), std::size_t(3), std::size_t(8), std::size_t(40) })
+    {
+        S base(len, Ch('m'));
+        for (std::size_t i = 0; i < len; ++i)
+            base[i] = static_cast<Ch>('a' + (i * 5) % 23);
+        for (std::size_t at : { std::size_t(0), len / 2, len - 1 })
+            for (Ch c : { Ch('A'), Ch('B'), Ch(0x20AC), Ch(0x00E4) })
+            {
+                S v = base;
+                v[at] = c;
+                if (std::find(g.begin(), g.end(), v) == g.end())
+                    g.push_back(v);
+            }
+    }
+    long pairs = 0, coll = 0, coll_t = 0, coll_p = 0, swapped = 0;
+    for (std::size_t i = 0; i < g.size(); ++i)
+    {
+        S copy(g[i].c_str(), g[i].size());
+        if (hash(copy) != hash(g[i]))
+            viol(name + ":equal-values-hash-differently", std::to_string(i));
+        for (std::size_t j = i + 1; j < g.size(); ++j)
+        {
+            if (g[i].size() != g[j].size())
+                continue;
+            ++pairs;
+            coll += hash(g[i]) == hash(g[j]);
+            coll_t += hash(std::make_tuple(1, g[i])) == hash(std::make_tuple(1, g[j]));
+            coll_p += hash(std::make_pair(g[i], 'x')) == hash(std::make_pair(g[j], 'x'));
+            swapped += hash(std::make_pair(g[i], g[j])) == hash(std::make_pair(g[j], g[i]));
+        }
+    }
+    stats["pairs:" + name] = pairs;
+    if (coll * 100 > pairs)
+        viol(name + ":hash-ignores-code-units", std::to_string(coll) + " collisions among " + std::to_string(pairs) + " pairs of equal length");
+    if (coll_t * 100 > pairs)
+        viol("tuple<int," + name + ">:hash-ignores-component-1", std::to_string(coll_t) + " of " + std::to_string(pairs));
+    if (coll_p * 100 > pairs)
+        viol("pair<" + name + ",char>:hash-ignores-component-0", std::to_string(coll_p) + " of " + std::to_string(pairs));
+    if (swapped * 100 > pairs)
+        viol("pair<" + name + "," + name + ">:hash-ignores-order", std::to_string(swapped) + " of " + std::to_string(pairs));
+    nitro::lang::unordered_set<S> set;
+    for (std::size_t i = 0; i < g.size(); i += 2)
+        set.insert(g[i]);
+    for (std::size_t i = 0; i < g.size(); ++i)
+    {
+        stats["lookups"]++;
+        if ((set.count(g[i]) == 1) != (i % 2 == 0))
+            viol("unordered_set<" + name + ">" + (i % 2 == 0 ? ":inserted-key-not-found" : ":foreign-key-found"), std::to_string(i));
+    }
+}
+
 static void check_more_types(std::uint64_t seed)
 {
+    wide_string_case<std::wstring>("wstring");
+    wide_string_case<std::u16string>("u16string");
+    wide_string_case<std::u32string>("u32string");
     using nitro::lang::hash;
     std::vector<D> gd;
     for (bool b : { false, true })
